@@ -362,7 +362,8 @@ func genSmallCase(rt *rapid.T) *Case {
 		return &Case{Edges: toEdges(ies, nid), CB: detCB[pick(rt, "big_cb", 2)], Pos: []int{PosSink, PosVAlign, PosPackRight}[pick(rt, "big_pos", 3)], Rt: RtSplines,
 			SzMode: SzFixed, Fixed: Sz{40, 20}, NS: ptr(10.0), LS: ptr(30.0)}
 	}
-	_, ies, _ := genGraph(rt, GraphSpec{MaxN: 7, MaxM: 10, Families: allFam, Union: true, SelfLoops: true, Parallel: true})
+	// no thin giants in histories (a history has up to 200 steps, each laying its case out twice; TestC18Big has the big cases)
+	_, ies, _ := genGraph(rt, GraphSpec{MaxN: 7, MaxM: 10, Families: allFam, Union: true, SelfLoops: true, Parallel: true, NoGiant: true})
 	c := &Case{Edges: toEdges(ies, nid)}
 	genOptions(rt, c, NodeIDs(c.Edges), OptSpec{CBs: detCB, Lays: allLay, Poss: posFor(len(NodeIDs(c.Edges)), len(ies), allPos), BKForced: true, Rts: allRt,
 		Thorough: false, Virt: true, Sizes: 0, NSZero: true, LSZero: true, DefaultsOK: true})
